@@ -105,7 +105,9 @@ def compare_slots(rec):
     """Slots the comparison looks at: every slot of a plain record; for a grouped record the flat fields of its descriptor
     (what 'stored faithfully' can mean for it: the same flat values under the group's flat type)."""
     if is_grouped(rec):
-        return [(str(t), str(n)) for t, n in rec._desc.get_field_tuples()]
+        # "If two Records have the same fieldname, the first one will prevail" (GroupedRecord's documented rule), which
+        # covers the reserved fields every member carries
+        return [(str(t), str(n)) for t, n in rec._desc.get_field_tuples()] + list(RESERVED)
     return all_slots(rec._desc)
 
 
@@ -425,16 +427,63 @@ def variant_descriptor(rng, desc, kind):
 
 def make_grouped(rng, desc, n_members, same_name, thorough=False):
     """GroupedRecord whose first member is a record of `desc` (all values mappable); further members come from other
-    descriptors over the mapped types with field names that cannot collide.  same_name: the group is named like `desc`
-    (with one member its flat descriptor then EQUALS `desc`, so a 'second record type' test does not see it)."""
+    descriptors over the mapped types that SHARE one or two (type, field) pairs with `desc` - with values of their own - next to
+    fields of their own; every member carries distinct _source / _classification / _generated.  The grouped view's rule is
+    'the first member prevails' for every shared name.  same_name: the group is named like `desc` (with one member its flat
+    descriptor then EQUALS `desc`, so a 'second record type' test does not see it)."""
     from flow.record import GroupedRecord, RecordDescriptor
 
+    base_fields = [(str(t), str(n)) for t, n in desc.get_field_tuples() if str(t) != "digest"]
     members = [make_record(rng, desc, bad=False, thorough=thorough)]
     for i in range(1, n_members):
-        types = [rng.choice(MAPPED_NO_DIGEST) for _ in range(rng.choice([1, 2, 3]))]
-        d = RecordDescriptor(gen.rand_typename(rng), [(t, "g%d_f%d" % (i, j)) for j, t in enumerate(types)])
-        members.append(make_record(rng, d, bad=False, thorough=thorough))
+        fields = [(rng.choice(MAPPED_NO_DIGEST), "g%d_f%d" % (i, j)) for j in range(rng.choice([1, 2, 3]))]
+        if base_fields:
+            for t, n in rng.sample(base_fields, min(len(base_fields), rng.choice([1, 2]))):
+                fields.insert(rng.randint(0, len(fields)), (t, n))
+        d = RecordDescriptor(gen.rand_typename(rng), fields)
+        for _ in range(4):  # the shared fields should hold values that differ from the first member's
+            m = make_record(rng, d, bad=False, thorough=thorough)
+            if all(observe.oval(getattr(m, n)) != observe.oval(getattr(members[0], n)) for t, n in fields if (t, n) in base_fields):
+                break
+        members.append(m)
+    for i, m in enumerate(members):
+        m._source = "member-%d-source" % i
+        m._classification = "CLASS-%d" % i
+        m._generated = _dt.datetime(2001 + i, 2, 3, 4, 5, 6, 700 + i, tzinfo=UTC)
     return GroupedRecord(str(desc.name) if same_name else gen.rand_typename(rng), members)
+
+
+def coincident_pair(rng, name=None):
+    """Two DIFFERENT descriptors over mapped types with the same name and the same 32-bit identifier hash.  The hash input is
+    name + (fieldname + fieldtype)..., so [(T1, x), (T2, T3 + y)] and [(T3, x + T1), (T2, y)] both give x T1 T3 y T2."""
+    from flow.record import RecordDescriptor
+
+    name = name or gen.rand_typename(rng)
+    while True:
+        t1, t2, t3 = (rng.choice(MAPPED_NO_DIGEST) for _ in range(3))
+        x, y = gen.unique_names(rng, 2)
+        extra = [(rng.choice(MAPPED_NO_DIGEST), "tail%d" % i) for i in range(rng.choice([0, 0, 1, 3]))]
+        fa = [(t1, x), (t2, t3 + y)] + extra
+        fb = [(t3, x + t1), (t2, y)] + extra
+        if rng.random() < 0.25:  # the shape of workload.coincident_pairs() 'co/three': two fields vs one
+            fa, fb = [(t1, x), (t2, y)] + extra, [(t2, x + t1 + y)] + extra
+        a, b = RecordDescriptor(name, fa), RecordDescriptor(name, fb)
+        if a.identifier == b.identifier and a.get_field_tuples() != b.get_field_tuples():
+            return a, b
+
+
+def same_name_pair(rng):
+    """Two descriptors with the same name, different fields and different hashes."""
+    from flow.record import RecordDescriptor
+
+    while True:
+        a = make_descriptor(rng, digest_p=0.0)
+        b = make_descriptor(rng, digest_p=0.0, name=str(a.name))
+        if rng.random() < 0.5:  # same field names, other types
+            fb = [(rng.choice(MAPPED_NO_DIGEST), str(n)) for _, n in a.get_field_tuples()]
+            b = RecordDescriptor(str(a.name), fb)
+        if a.get_field_tuples() != b.get_field_tuples() and a.identifier != b.identifier:
+            return a, b
 
 
 VARIANT_KINDS = ("other-name", "renamed-field", "extra-field", "dropped-field", "same-avro-type", "reordered")
